@@ -10,11 +10,12 @@ from gen import serial as G
 
 ID = "C15"
 PROPS = ["IsoVerif/Props/C15.lean", "IsoVerif/Props/C15Objects.lean", "IsoVerif/Props/C15Stream.lean",
-         "IsoVerif/Props/C15Domain.lean", "IsoVerif/Props/C15Reuse.lean"]
+         "IsoVerif/Props/C15Domain.lean", "IsoVerif/Props/C15Reuse.lean", "IsoVerif/Props/C15Printers.lean"]
 TARGETS = ["IsoVerif.Props.C15", "IsoVerif.Props.C15Objects", "IsoVerif.Props.C15Stream", "IsoVerif.Props.C15Domain",
-           "IsoVerif.Props.C15Reuse"]
+           "IsoVerif.Props.C15Reuse", "IsoVerif.Props.C15Printers"]
 # the reuse clause composes the models of C08 / C02 / C12 (Model/Reuse.lean), hence their generated tables
-GEN_DEPS = ["Constants", "Enums", "EventClasses", "Strategies", "Prims", "Resolver", "CounterTables", "Weights"]
+GEN_DEPS = ["Constants", "Enums", "EventClasses", "Strategies", "Prims", "Resolver", "CounterTables", "Weights",
+            "PrinterTables"]
 LEVEL = "proof"
 RULE = ("byte-level: the real writers (serialization.py primitives, MatchEvent/IsoformMatch/ReadAssignment/"
         "BasicReadAssignment/GeneInfo.serialize, TmpFileAssignmentPrinter, multimapper/info files) must produce exactly "
@@ -28,7 +29,10 @@ RULE = ("byte-level: the real writers (serialization.py primitives, MatchEvent/I
         "on one and on several chromosomes) go through the REAL command line in-process - saving run in both memory modes "
         "(only collect_reads_in_parallel replaced by a stub that feeds the real printer) and the real --read_assignments "
         "restart; the saved files must equal the model's bytes, and the loaded records, count and TPM tables of the saving "
-        "run and of the restart must equal the model's (processSaved on the real files). A case is non-trivial when the model returns a "
+        "run and of the restart must equal the model's (processSaved on the real files); read_assignments.tsv and "
+        "corrected_reads.bed of both runs must equal, line by line, what the model prints from the real saved files "
+        "(processSavedP); unit level: the real composite printer on generated records / gene infos, every event name, "
+        "the reference window, merge_files. A case is non-trivial when the model returns a "
         "non-error value and model == implementation; distinct by (op, input)")
 TRUSTED = ["harness/props/C15.py adapters between the canonical JSON form and the real objects "
            "(ReadAssignment/IsoformMatch/... built with __new__ + attributes, exactly the attributes serialize reads)",
@@ -38,6 +42,12 @@ TRUSTED = ["harness/props/C15.py adapters between the canonical JSON form and th
            "its files are compared byte for byte with the model)",
            "props/C15reuse.py: the stub of collect_reads_in_parallel (generated objects -> real printer -> processed_reads as "
            "the real function returns them) and of pysam.AlignmentFile(...).unmapped; the interning table sent to the driver",
+           "props/C15print.py (read-level printers): the `GeneInfo` of the unit-level cases is built with __new__ + the five "
+           "attributes the printers read (chr_id, all_isoforms_introns, reference_region, all_read_region_start, "
+           "canonical_sites); `gene_window` restates the two lines of NormalTmpFileAssignmentLoader.get_object that cut the "
+           "reference window before the REAL extend_reference_region (the real loader runs in every in-process run); the "
+           "`common_header` lines and `all_isoforms_introns` (real GeneInfo.deserialize on the real database) are handed to "
+           "the model as parameters",
            "Lean `String.fromUTF8?` accepts exactly the byte strings CPython's strict utf-8 decoder accepts "
            "(cross-checked on corrupted streams each run)"]
 ASSUMPTIONS = ["CPython int = Lean Int; Python str without lone surrogates = Lean String (list of Unicode scalar values)",
@@ -708,6 +718,9 @@ def correspondence(ctx):
     pipeline_files_correspondence(ctx)
     from props import C15reuse
     C15reuse.correspondence(ctx)
+    # the read-level printers (Model/Printers.lean) on generated records, the generated event-name table, merge_files
+    from props import C15print
+    C15print.correspondence(ctx)
 
 
 def run_cases(ctx, cases):
@@ -1278,6 +1291,9 @@ def oracle(ctx, disagreements, broken):
         C15reuse.oracle(ctx, disagreements, broken)
     finally:
         C15reuse.cleanup()
+    # read-level printers: `merged_hash_witness` replayed on the real merge_files and through the real command line
+    from props import C15print
+    C15print.oracle(ctx)
     ctx.extra["oracle_cases"] = n_cases
 
 
